@@ -152,7 +152,9 @@ Definition cur_buf (s : st) : nat := match curr s with Some c => c | None => 0 e
 Definition on_cur (f : buf -> buf) (s : st) : st := with_bufs (upd (cur_buf s) f (bufs s)) s.
 
 (* one producer step: at most one store to shared memory or one message *)
-Definition pstep (cap : nat) (s : st) : st :=
+(* `single` = the repaired code (proposed-fixes/C04-1.diff): header and payload are counted by ONE
+   size update after both are stored; `single = false` is the code as found *)
+Definition pstep (single : bool) (cap : nat) (s : st) : st :=
   match pc s with
   | PIdle =>
       match todo s with
@@ -184,12 +186,15 @@ Definition pstep (cap : nat) (s : st) : st :=
       with_pc (PBump r) (on_cur (fun b => set_data (write_at (b_size b + 8) (le64 (word_of r)) (b_data b)) b) s)
   | PBump r =>
       let s' := on_cur (fun b => set_size (b_size b + 16) b) s in
-      if has_pl r then with_pc (PCopy r) s' else with_pc PIdle (with_done (done s ++ [r]) s')
+      if has_pl r then (if single then with_pc (PCopy r) s else with_pc (PCopy r) s')
+      else with_pc PIdle (with_done (done s ++ [r]) s')
   | PCopy r =>
-      with_pc (PBumpPl r) (on_cur (fun b => set_data (write_at (b_size b) (r_pl r) (b_data b)) b) s)
+      let off := if single then 16 else 0 in
+      with_pc (PBumpPl r) (on_cur (fun b => set_data (write_at (b_size b + off) (r_pl r) (b_data b)) b) s)
   | PBumpPl r =>
+      let off := if single then 16 else 0 in
       with_pc PIdle (with_done (done s ++ [r])
-                       (on_cur (fun b => set_size (b_size b + align8 (length (r_pl r))) b) s))
+                       (on_cur (fun b => set_size (b_size b + off + align8 (length (r_pl r))) b) s))
   end.
 
 (* shmem_finish at a normal thread end: REC_END for the current buffer *)
@@ -230,9 +235,10 @@ Definition wstep (s : st) : st :=
   end.
 
 Inductive lab := LP | LR | LW.
-Definition step (cap : nat) (l : lab) (s : st) : st :=
-  match l with LP => pstep cap s | LR => rstep s | LW => wstep s end.
-Definition run (cap : nat) (sched : list lab) (s : st) : st := fold_left (fun s l => step cap l s) sched s.
+Definition step (single : bool) (cap : nat) (l : lab) (s : st) : st :=
+  match l with LP => pstep single cap s | LR => rstep s | LW => wstep s end.
+Definition run (single : bool) (cap : nat) (sched : list lab) (s : st) : st :=
+  fold_left (fun s l => step single cap l s) sched s.
 
 Fixpoint iter {A} (n : nat) (f : A -> A) (x : A) : A :=
   match n with O => x | S k => iter k f (f x) end.
@@ -254,8 +260,8 @@ Definition init (recs : list rec) : st :=
      pc := PIdle; todo := recs; done := [] |}.
 
 (* the window between the two size updates of a record with payload *)
-Definition in_window (s : st) : bool :=
-  match pc s with PCopy _ | PBumpPl _ => true | _ => false end.
+Definition in_window (single : bool) (s : st) : bool :=
+  negb single && match pc s with PCopy _ | PBumpPl _ => true | _ => false end.
 
 (* ------------------------------------------------------------------ the property checker *)
 Fixpoint list_eqb (a b : list N) : bool :=
@@ -459,32 +465,33 @@ Fixpoint bad_indices {A} (ok : A -> bool) (l : list A) (i : nat) : list nat :=
   end.
 
 (* visible events of the producer: a change of (size, flag) of some buffer *)
-Definition visible (s : st) : bool :=
+Definition visible (single : bool) (s : st) : bool :=
   match pc s with
-  | PPick _ | PBump _ => true
-  | PBumpPl r => negb (Nat.eqb (align8 (length (r_pl r))) 0)
+  | PPick _ => true
+  | PBump r => negb (single && has_pl r)
+  | PBumpPl r => single || negb (Nat.eqb (align8 (length (r_pl r))) 0)
   | _ => false
   end.
 (* producer steps until `n` records are complete and the producer is idle *)
-Fixpoint p_until_done (cap fuel n : nat) (s : st) : list lab :=
+Fixpoint p_until_done (single : bool) (cap fuel n : nat) (s : st) : list lab :=
   match fuel with
   | O => []
   | S k => match pc s with
-           | PIdle => if n <=? length (done s) then [] else LP :: p_until_done cap k n (pstep cap s)
-           | _ => LP :: p_until_done cap k n (pstep cap s)
+           | PIdle => if n <=? length (done s) then [] else LP :: p_until_done single cap k n (pstep single cap s)
+           | _ => LP :: p_until_done single cap k n (pstep single cap s)
            end
   end.
 (* producer steps until `e` visible events have happened (stops right after the e-th), or until
    `n` records are complete *)
-Fixpoint p_until_events (cap fuel e n : nat) (s : st) : list lab :=
+Fixpoint p_until_events (single : bool) (cap fuel e n : nat) (s : st) : list lab :=
   match fuel, e with
   | O, _ => []
   | _, O => []
   | S k, S e' =>
       match pc s with
       | PIdle => if n <=? length (done s) then []
-                 else LP :: p_until_events cap k e n (pstep cap s)
-      | _ => LP :: p_until_events cap k (if visible s then e' else e) n (pstep cap s)
+                 else LP :: p_until_events single cap k e n (pstep single cap s)
+      | _ => LP :: p_until_events single cap k (if visible single s then e' else e) n (pstep single cap s)
       end
   end.
 (* the recorder catches up completely: every message, then every queued buffer *)
@@ -496,27 +503,27 @@ Definition catch_up (s : st) : list lab := repeat LR (length (chan s)) ++ repeat
    e-th visible store (SIGKILL), otherwise all ops complete and the process ends (`tc_flush`:
    through SIGSEGV/SIGABRT, whose handler flushes the open calls first). *)
 Record tcase := {
-  tc_cap : nat; tc_ops : list op; tc_sync : list bool; tc_kill : option nat; tc_flush : bool;
+  tc_single : bool; tc_cap : nat; tc_ops : list op; tc_sync : list bool; tc_kill : option nat; tc_flush : bool;
   (* what the implementation showed *)
   tc_shl : list nat; tc_shf : list N; tc_wl : list nat; tc_file : list N }.
 
 Definition fuel_for (n : nat) : nat := 12 * n + 12.
-Fixpoint tie_ops (cap : nat) (groups : list (list rec)) (syncs : list bool) (kill : option nat) (s : st) : st :=
+Fixpoint tie_ops (single : bool) (cap : nat) (groups : list (list rec)) (syncs : list bool) (kill : option nat) (s : st) : st :=
   match groups with
   | [] => s
   | g :: rest =>
-      let s1 := if hd false syncs then run cap (catch_up s) s else s in
+      let s1 := if hd false syncs then run single cap (catch_up s) s else s in
       let n := length (done s1) + length g in
       match rest, kill with
-      | [], Some e => run cap (p_until_events cap (fuel_for (length g)) e n s1) s1
-      | _, _ => tie_ops cap rest (List.tl syncs) kill (run cap (p_until_done cap (fuel_for (length g)) n s1) s1)
+      | [], Some e => run single cap (p_until_events single cap (fuel_for (length g)) e n s1) s1
+      | _, _ => tie_ops single cap rest (List.tl syncs) kill (run single cap (p_until_done single cap (fuel_for (length g)) n s1) s1)
       end
   end.
 Definition tc_groups (tc : tcase) : list (list rec) :=
   let '(stk, rss) := ops_run [] (tc_ops tc) in
   if tc_flush tc then rss ++ [segv_flush stk] else rss.
 Definition tc_state (tc : tcase) : st :=
-  tie_ops (tc_cap tc) (tc_groups tc) (tc_sync tc) (tc_kill tc) (init (concat (tc_groups tc))).
+  tie_ops (tc_single tc) (tc_cap tc) (tc_groups tc) (tc_sync tc) (tc_kill tc) (init (concat (tc_groups tc))).
 Definition obs (s : st) : list nat * list N * list nat * list N :=
   let s1 := drain s in
   let s2 := flush_shmem_list s1 in
@@ -541,7 +548,7 @@ Definition ok_case (tc : tcase) : bool :=
 Definition window_shape (tc : tcase) : bool :=
   let f := tc_file tc in
   (16 <=? length f) && ok_prefix (eager [] (tc_ops tc)) (firstn (length f - 16) f).
-Definition tc_in_window (tc : tcase) : bool := in_window (tc_state tc).
+Definition tc_in_window (tc : tcase) : bool := in_window (tc_single tc) (tc_state tc).
 
 (* ---- one case of the liveness tie: messages / SIGCHLD / check_tid_list on real processes ---- *)
 Inductive lev :=
@@ -605,6 +612,24 @@ Fixpoint dec_words (ws : list N) : option (list drec) :=
       else None
   | _ => None
   end.
+(* the file as bytes: little-endian 64-bit words (None: the length is not a multiple of 8) *)
+Definition from_le (bs : list N) : N := fold_right (fun b acc => (b + 256 * acc)%N) 0%N bs.
+Fixpoint words_of (bs : list N) : option (list N) :=
+  match bs with
+  | [] => Some []
+  | b0 :: b1 :: b2 :: b3 :: b4 :: b5 :: b6 :: b7 :: r =>
+      match words_of r with
+      | Some ws => Some (from_le [b0; b1; b2; b3; b4; b5; b6; b7] :: ws)
+      | None => None
+      end
+  | _ => None
+  end.
+Definition dec_bytes (bs : list N) : option (list drec) :=
+  match words_of bs with Some ws => dec_words ws | None => None end.
+Definition drec_of (r : rec) : drec :=
+  {| d_time := r_time r; d_type := r_type r; d_more := if has_pl r then 1%N else 0%N; d_magic := RECORD_MAGIC;
+     d_depth := r_depth r; d_addr := r_addr r |}.
+
 Fixpoint func_of (ftab : list (N * N)) (k : N) (a : N) : option N :=
   match ftab with
   | [] => None
@@ -643,8 +668,7 @@ Fixpoint nest_ok (stk : list N) (l : list drec) : bool :=
 Record ecase := {
   e_ftab : list (N * N);          (* start, size of f0, f1, ... *)
   e_log : list (N * N);           (* the thread's own log: (0 enter | 1 leave, k) *)
-  e_words : list N;               (* <tid>.dat as little-endian 64-bit words *)
-  e_tail : nat;                   (* file length mod 8 *)
+  e_bytes : list N;               (* <tid>.dat *)
   e_crash : bool;                 (* the thread died in the SIGSEGV/SIGABRT handler path: open calls included *)
   e_nest : bool }.                (* check nesting (off when the image was replaced by exec) *)
 Definition crash_log (l : list (N * N)) : list (N * N) :=
@@ -653,8 +677,7 @@ Definition crash_log (l : list (N * N)) : list (N * N) :=
   | _ => l
   end.
 Definition ok_e2e (c : ecase) : bool :=
-  Nat.eqb (e_tail c) 0 &&
-  match dec_words (e_words c) with
+  match dec_bytes (e_bytes c) with
   | None => false
   | Some l =>
       let p := project (e_ftab c) l in
